@@ -145,6 +145,7 @@ pub fn write_replay(v: &Violation, seed: u64) -> PathBuf {
     let path = dir.join(format!("{}-{}-{}.json", v.property, seed, v.run));
     let doc = json!({
         "property": v.property,
+        "abort_probe": v.signature == "host process aborted",
         "oracle": v.oracle,
         "verif_seed": seed,
         "run": v.run,
